@@ -243,17 +243,12 @@ func TestC05Layouts(t *testing.T) {
 						}
 					})
 				}
-				hasFuzzy := false
-				r.Q.Walk(func(x *Q) {
-					if (x.Kind == "fuzzy" || x.Kind == "match") && x.Fuzz > 0 {
-						hasFuzzy = true
-					}
-				})
-				if _, open := KnownOpen("C05", c05KnownFuzzy); open && hasFuzzy && (shapes[0][1] > 0 || shapes[li][1] > 0) {
-					// known finding: a fuzzy clause whose only candidates are terms of deleted
-					// documents is built differently from one without candidates, so scores
+				if _, open := KnownOpen("C05", c05KnownFuzzy); open && (shapes[0][1] > 0 || shapes[li][1] > 0) && c05DeadOnlyExpansion(r.Q, model, steps) {
+					// known finding: a prefix or fuzzy clause whose only dictionary candidates are
+					// terms of deleted documents is built differently from one without candidates
+					// (empty multi-term disjunction vs a TermSearcher for the query term), so scores
 					// differ until a merge drops the dead terms.  Scores are not compared for
-					// this class; everything else still is.
+					// exactly this class; everything else still is.
 					ev.Exclude(c05KnownFuzzy)
 					crossVersionFuzzy = true
 				}
@@ -373,4 +368,67 @@ func TestC05KnownFuzzy(t *testing.T) {
 		return
 	}
 	t.Fatalf("same content, different scores: %v with a tombstoned document holding the term \"ab\", %v without (query match t:\"cab abd\" fuzziness 1)", a, b)
+}
+
+// c05DeadOnlyExpansion reports whether q has a prefix / fuzzy leaf that matches no term of
+// a live document but matches a term of some document version that the history deleted or
+// overwrote (the class of the open known finding).
+func c05DeadOnlyExpansion(q *Q, model *State, steps []c01Step) bool {
+	tokens := func(docs []Doc, field string) []string {
+		var out []string
+		for _, d := range docs {
+			out = append(out, d.AllTokens(field)...)
+		}
+		return out
+	}
+	var live, hist []Doc
+	for _, d := range model.Docs {
+		live = append(live, d)
+	}
+	for _, s := range steps {
+		for _, op := range s.Ops {
+			if op.Kind == OpIndex {
+				hist = append(hist, op.Doc)
+			}
+		}
+	}
+	found := false
+	q.Walk(func(x *Q) {
+		var match func(tok string) bool
+		switch {
+		case x.Kind == "prefix":
+			match = func(tok string) bool { return strings.HasPrefix(tok, x.Text) }
+		case x.Kind == "fuzzy" && x.Fuzz > 0:
+			match = func(tok string) bool { return fuzzyTerm(tok, x.Text, x.Fuzz, x.Prefix) != No }
+		case x.Kind == "match" && x.Fuzz > 0:
+			for _, w := range analyzeQueryText(x.Field, x.Text) {
+				w := w
+				m := func(tok string) bool { return fuzzyTerm(tok, w, x.Fuzz, x.Prefix) != No }
+				l, h := false, false
+				for _, tk := range tokens(live, x.Field) {
+					l = l || m(tk)
+				}
+				for _, tk := range tokens(hist, x.Field) {
+					h = h || m(tk)
+				}
+				if !l && h {
+					found = true
+				}
+			}
+			return
+		default:
+			return
+		}
+		l, h := false, false
+		for _, tk := range tokens(live, x.Field) {
+			l = l || match(tk)
+		}
+		for _, tk := range tokens(hist, x.Field) {
+			h = h || match(tk)
+		}
+		if !l && h {
+			found = true
+		}
+	})
+	return found
 }
